@@ -77,11 +77,8 @@ class C03(Engine):
             if fmt == "wdc" and hi >= (1 << 24):
                 res.probe("skipped_wdc_above_24_bits")
                 continue
-            # SREC_16 means "record size chosen per line from the address" (S1/S2/S3), not a 16-bit limit
-            srec_bits = {"SREC_16": 32, "SREC_24": 24, "SREC_32": 32}[info["srec"]]
-            if fmt == "srec" and hi >= (1 << srec_bits):
-                res.probe("skipped_srec_above_record_size")
-                continue
+            # (SREC_16 means "record size chosen per line from the address", and SREC_24 writes S3 records for addresses
+            # that need them: no S-record size limit below 2^32)
             out = "/sim/w/out." + fmt
             srcpath = plan.get("srcpath", "a.asm")
             files = {(srcpath if srcpath.startswith("/") else "/sim/w/" + srcpath): src}
